@@ -83,6 +83,19 @@ def run(ctx, rep):
                 if INTERIOR.search(fl["ty"]):
                     bad.append("%s.%s" % (path, fl["name"]))
     rep.check(not bad, "L4", "C13|L4|interior", None, "interior mutability in %r" % (bad,))
+    # ---- A6 inherited from C11: a choice made in hash order inside the per-file pipeline makes a file's result depend on something else than its text and its imports' kinds
+    rep.rule("A6", "inherits C11 A6 for the functions reachable from validation::validate (hash-ordered choices must be unique choices)")
+    import c11
+    import core as _core
+    r11 = _core.Report("C11")
+    c11.run(ctx, r11)
+    n6 = 0
+    for v in r11.violations:
+        if v.rule == "A6" and "parser::Parser" not in v.key:
+            n6 += 1
+            rep.fail("A6", v.key.replace("C11|", "C13|", 1), v.where, v.message, witness=v.witness)
+    if not n6:
+        rep.ok("A6", "no unclassified hash-ordered choice in validation (C11 A6: %d instances)" % r11.counts.get("A6", 0), {"instances": r11.counts.get("A6", 0)})
     import pipeline
     pipeline.rule(ctx, rep, "C13", ['resolve_types', 'check_imports', 'check_declared_parcelables', 'check_containers', 'set_up_oneway_interface', 'check_methods'])
     rep.assumptions += ["TB-1 rustc MIR", "TB-3 HashMap get / contains_key depend only on the key and the entry stored under it"]
